@@ -97,9 +97,74 @@ structure Idx where
   body : IdxBody
   rb   : Tok
 
+/-- an enumeration member: `name [= n]` -/
+structure EVar where
+  name : Tok
+  val  : Option (Tok × Tok)
+
+def EVar.toks (v : EVar) : List Tok := v.name :: (match v.val with | some (e, n) => [e, n] | none => [])
+def EVar.tree (v : EVar) : Tree := Gram.mk "enum_member" v.name.value v.name.rng []
+def EVar.WF (v : EVar) : Prop :=
+  v.name.kind = Kind.Identifier ∧ ∀ e n, v.val = some (e, n) → e.kind = Kind.Equals ∧ n.kind = Kind.NumericLiteral
+def EVar.wfb (v : EVar) : Bool :=
+  v.name.kind == Kind.Identifier && (match v.val with | some (e, n) => e.kind == Kind.Equals && n.kind == Kind.NumericLiteral | none => true)
+
+def evarsToks : List (Tok × EVar) → List Tok
+  | [] => []
+  | (c, v) :: rest => c :: (v.toks ++ evarsToks rest)
+
+def evarsWF : List (Tok × EVar) → Prop
+  | [] => True
+  | (c, v) :: rest => c.kind = Kind.Comma ∧ v.WF ∧ evarsWF rest
+
+def evarsWfb : List (Tok × EVar) → Bool
+  | [] => true
+  | (c, v) :: rest => c.kind == Kind.Comma && v.wfb && evarsWfb rest
+
+/-- an operand of a composed type: a type name or an enumeration `( a, b = 1, … )` -/
+inductive COp where
+  | basic (t : Tok)
+  | enumE (lp rp : Tok)
+  | enum (lp : Tok) (first : EVar) (rest : List (Tok × EVar)) (rp : Tok)
+
+def COp.toks : COp → List Tok
+  | .basic t => [t]
+  | .enumE lp rp => [lp, rp]
+  | .enum lp first rest rp => lp :: (first.toks ++ (evarsToks rest ++ [rp]))
+
+def COp.tree : COp → Tree
+  | .basic t => typeBasic t
+  | .enumE lp rp => mk "type_enum" "type_enum" (Range.span lp.rng rp.rng) []
+  | .enum lp first rest rp =>
+    mk "type_enum" "type_enum" (Range.span lp.rng rp.rng) (first.tree :: rest.map (fun cv => cv.2.tree))
+
+def COp.WF : COp → Prop
+  | .basic t => t.kind = Kind.Identifier
+  | .enumE lp rp => lp.kind = Kind.OBracket ∧ rp.kind = Kind.CBracket
+  | .enum lp first rest rp => lp.kind = Kind.OBracket ∧ first.WF ∧ evarsWF rest ∧ rp.kind = Kind.CBracket
+
+def COp.wfb : COp → Bool
+  | .basic t => t.kind == Kind.Identifier
+  | .enumE lp rp => lp.kind == Kind.OBracket && rp.kind == Kind.CBracket
+  | .enum lp first rest rp => lp.kind == Kind.OBracket && first.wfb && evarsWfb rest && rp.kind == Kind.CBracket
+
+def copsToks : List (Tok × COp) → List Tok
+  | [] => []
+  | (p, o) :: rest => p :: (o.toks ++ copsToks rest)
+
+def copsWF : List (Tok × COp) → Prop
+  | [] => True
+  | (p, o) :: rest => p.kind = Kind.Plus ∧ o.WF ∧ copsWF rest
+
+def copsWfb : List (Tok × COp) → Bool
+  | [] => true
+  | (p, o) :: rest => p.kind == Kind.Plus && o.wfb && copsWfb rest
+
 inductive Ty where
   /-- `T` -/
   | basic (t : Tok)
+  /-- `A + B + ( x, y )`: type names and enumerations joined by `+` (a single enumeration included) -/
+  | composed (first : COp) (rest : List (Tok × COp))
   /-- `T ( n )` -/
   | sized (t lp n rp : Tok)
   /-- `refTo T` / `listOf T`, optionally `inverse x` -/
@@ -148,6 +213,7 @@ def optIdxTrees : Option Idx → List Tree
 
 def Ty.toks : Ty → List Tok
   | .basic t => [t]
+  | .composed first rest => first.toks ++ copsToks rest
   | .sized t lp n rp => [t, lp, n, rp]
   | .ref r t inv => r :: t :: (match inv with | some (i, x) => [i, x] | none => [])
   | .range lo to hi => [lo, to, hi]
@@ -158,6 +224,7 @@ def Ty.toks : Ty → List Tok
 
 def Ty.tree : Ty → Tree
   | .basic t => typeBasic t
+  | .composed first rest => rest.foldl (fun acc po => binNode acc (.leaf po.1) po.2.tree) first.tree
   | .sized t _ _ rp => mk "type_sized" t.value (Range.span t.rng rp.rng) []
   | .ref r t inv =>
     mk "type_ref" t.value (Range.span r.rng (match inv with | some (_, x) => x.rng | none => t.rng)) []
@@ -171,6 +238,7 @@ def Ty.tree : Ty → Tree
 
 def Ty.WF : Ty → Prop
   | .basic t => t.kind = Kind.Identifier
+  | .composed first rest => first.WF ∧ copsWF rest
   | .sized t lp n rp =>
     t.kind = Kind.Identifier ∧ lp.kind = Kind.OBracket ∧ n.kind = Kind.NumericLiteral ∧ rp.kind = Kind.CBracket
   | .ref r t inv =>
@@ -185,6 +253,7 @@ def Ty.WF : Ty → Prop
 
 def Ty.wfb : Ty → Bool
   | .basic t => t.kind == Kind.Identifier
+  | .composed first rest => first.wfb && copsWfb rest
   | .sized t lp n rp =>
     t.kind == Kind.Identifier && lp.kind == Kind.OBracket && n.kind == Kind.NumericLiteral && rp.kind == Kind.CBracket
   | .ref r t inv =>
@@ -197,16 +266,6 @@ def Ty.wfb : Ty → Bool
     [Kind.Array, Kind.Sequence].contains a.kind && i1.wfb && (match i2 with | some i => i.wfb | none => true) &&
     ofT.kind == Kind.Of && t.kind == Kind.Identifier
   | .instOf kw t => kw.kind == Kind.InstanceOf && t.kind == Kind.Identifier
-
-/-- `type aName : T` -/
-def typeDeclTree (kw name : Tok) (ty : Ty) : Tree :=
-  mk "type_decl" name.value ⟨kw.rng.s, ty.tree.rng.e⟩ [ty.tree] [] (some name.rng)
-
-def typeDeclWF (kw name colon : Tok) (ty : Ty) : Prop :=
-  kw.kind = Kind.Type ∧ name.kind = Kind.Identifier ∧ colon.kind = Kind.Colon ∧ ty.WF
-
-def typeDeclWfb (kw name colon : Tok) (ty : Ty) : Bool :=
-  kw.kind == Kind.Type && name.kind == Kind.Identifier && colon.kind == Kind.Colon && ty.wfb
 
 /-- `, b , c …` after the first identifier of a `uses` list -/
 def commaToks : List (Tok × Tok) → List Tok
@@ -268,6 +327,170 @@ def absWfb : Option (Tok × Tok) → Bool
   | none => true
   | some (a, x) => a.kind == Kind.Absolute && identKinds.contains x.kind
 
+/-! ### parameters -/
+
+/-- `[const|var|inout] name : T` -/
+structure Param where
+  md    : Option Tok
+  name  : Tok
+  colon : Tok
+  ty    : Ty
+
+def paramModKinds : List Kind := [Kind.Const, Kind.Var, Kind.InOut]
+
+def Param.toks (p : Param) : List Tok := p.md.toList ++ p.name :: p.colon :: p.ty.toks
+
+def Param.tree (p : Param) : Tree :=
+  Gram.mk "param_decl" p.name.value
+    ⟨(match p.md with | some m => m.rng.s | none => p.name.rng.s), p.ty.tree.rng.e⟩
+    [p.ty.tree]
+    (match p.md with | some m => ["modifier=" ++ m.kind.name] | none => [])
+    (some p.name.rng)
+
+def Param.WF (p : Param) : Prop :=
+  (∀ m, p.md = some m → m.kind ∈ paramModKinds) ∧ p.name.kind ∈ identKinds ∧ p.name.kind ∉ paramModKinds ∧
+  p.colon.kind = Kind.Colon ∧ p.ty.WF
+
+def Param.wfb (p : Param) : Bool :=
+  (match p.md with | some m => paramModKinds.contains m.kind | none => true) && identKinds.contains p.name.kind &&
+  !paramModKinds.contains p.name.kind && p.colon.kind == Kind.Colon && p.ty.wfb
+
+/-- `( )` or `( p , p , … )` -/
+inductive ParamList where
+  | empty (lp rp : Tok)
+  | cons (lp : Tok) (first : Param) (rest : List (Tok × Param)) (rp : Tok)
+
+def restToks : List (Tok × Param) → List Tok
+  | [] => []
+  | (c, p) :: rest => c :: (p.toks ++ restToks rest)
+
+def ParamList.toks : ParamList → List Tok
+  | .empty lp rp => [lp, rp]
+  | .cons lp first rest rp => lp :: (first.toks ++ (restToks rest ++ [rp]))
+
+def ParamList.tree : ParamList → Tree
+  | .empty lp rp => Gram.mk "param_decl_list" "param_decls" ⟨lp.rng.s, rp.rng.e⟩ []
+  | .cons lp first rest rp =>
+    Gram.mk "param_decl_list" "param_decls" ⟨lp.rng.s, rp.rng.e⟩ (first.tree :: rest.map (fun cp => cp.2.tree))
+
+def restWF : List (Tok × Param) → Prop
+  | [] => True
+  | (c, p) :: rest => c.kind = Kind.Comma ∧ p.WF ∧ restWF rest
+
+def restWfb : List (Tok × Param) → Bool
+  | [] => true
+  | (c, p) :: rest => c.kind == Kind.Comma && p.wfb && restWfb rest
+
+def ParamList.WF : ParamList → Prop
+  | .empty lp rp => lp.kind = Kind.OBracket ∧ rp.kind = Kind.CBracket
+  | .cons lp first rest rp => lp.kind = Kind.OBracket ∧ first.WF ∧ restWF rest ∧ rp.kind = Kind.CBracket
+
+def ParamList.wfb : ParamList → Bool
+  | .empty lp rp => lp.kind == Kind.OBracket && rp.kind == Kind.CBracket
+  | .cons lp first rest rp => lp.kind == Kind.OBracket && first.wfb && restWfb rest && rp.kind == Kind.CBracket
+
+def optParamsToks : Option ParamList → List Tok
+  | none => []
+  | some ps => ps.toks
+
+def optParamsTree : Option ParamList → List Tree
+  | none => []
+  | some ps => [ps.tree]
+
+def optParamsWF : Option ParamList → Prop
+  | none => True
+  | some ps => ps.WF
+
+def optParamsWfb : Option ParamList → Bool
+  | none => true
+  | some ps => ps.wfb
+
+
+/-! ### types that contain other types: records, procedure and function types -/
+
+/-- `name : T` inside a record -/
+structure RecField where
+  name  : Tok
+  colon : Tok
+  ty    : Ty
+
+def RecField.toks (f : RecField) : List Tok := f.name :: f.colon :: f.ty.toks
+def RecField.tree (f : RecField) : Tree :=
+  Gram.mk "type_record_field" f.name.value (Range.span f.name.rng f.ty.tree.rng) [f.ty.tree]
+def RecField.WF (f : RecField) : Prop := f.name.kind = Kind.Identifier ∧ f.colon.kind = Kind.Colon ∧ f.ty.WF
+def RecField.wfb (f : RecField) : Bool := f.name.kind == Kind.Identifier && f.colon.kind == Kind.Colon && f.ty.wfb
+
+def fieldsToks : List RecField → List Tok
+  | [] => []
+  | f :: rest => f.toks ++ fieldsToks rest
+
+def fieldsWF : List RecField → Prop
+  | [] => True
+  | f :: rest => f.WF ∧ fieldsWF rest
+
+def fieldsWfb : List RecField → Bool
+  | [] => true
+  | f :: rest => f.wfb && fieldsWfb rest
+
+def parentToks : Option (Tok × Tok × Tok) → List Tok
+  | none => []
+  | some (lp, p, rp) => [lp, p, rp]
+
+def parentWF : Option (Tok × Tok × Tok) → Prop
+  | none => True
+  | some (lp, p, rp) => lp.kind = Kind.OBracket ∧ p.kind = Kind.Identifier ∧ rp.kind = Kind.CBracket
+
+def parentWfb : Option (Tok × Tok × Tok) → Bool
+  | none => true
+  | some (lp, p, rp) => lp.kind == Kind.OBracket && p.kind == Kind.Identifier && rp.kind == Kind.CBracket
+
+/-- a type as it may stand in a declaration: one of the flat forms, a record, a procedure or function type -/
+inductive TyX where
+  | flat (t : Ty)
+  /-- `record [(Parent)] (name : T)* endrecord` -/
+  | record (kw : Tok) (parent : Option (Tok × Tok × Tok)) (fields : List RecField) (endT : Tok)
+  /-- `proc [(params)]` -/
+  | procT (kw : Tok) (ps : Option ParamList)
+  /-- `func [(params)] return T` -/
+  | funcT (kw : Tok) (ps : Option ParamList) (ret ty : Tok)
+
+def TyX.toks : TyX → List Tok
+  | .flat t => t.toks
+  | .record kw parent fields endT => kw :: (parentToks parent ++ (fieldsToks fields ++ [endT]))
+  | .procT kw ps => kw :: optParamsToks ps
+  | .funcT kw ps ret ty => kw :: (optParamsToks ps ++ [ret, ty])
+
+def TyX.tree : TyX → Tree
+  | .flat t => t.tree
+  | .record kw parent fields endT =>
+    mk "type_record" "type_record" (Range.span kw.rng endT.rng)
+      ((match parent with | some (_, p, _) => [terminal (.leaf p)] | none => []) ++ fields.map RecField.tree)
+  | .procT kw ps =>
+    mk "type_proc" "type_proc" (Range.span kw.rng (match ps with | some p => p.tree.rng | none => kw.rng)) (optParamsTree ps)
+  | .funcT kw ps _ ty => mk "type_func" "type_func" (Range.span kw.rng ty.rng) (optParamsTree ps ++ [typeBasic ty])
+
+def TyX.WF : TyX → Prop
+  | .flat t => t.WF
+  | .record kw parent fields endT => kw.kind = Kind.Record ∧ parentWF parent ∧ fieldsWF fields ∧ endT.kind = Kind.EndRecord
+  | .procT kw ps => kw.kind = Kind.Proc ∧ optParamsWF ps
+  | .funcT kw ps ret ty => kw.kind = Kind.Func ∧ optParamsWF ps ∧ ret.kind = Kind.Return ∧ ty.kind = Kind.Identifier
+
+def TyX.wfb : TyX → Bool
+  | .flat t => t.wfb
+  | .record kw parent fields endT => kw.kind == Kind.Record && parentWfb parent && fieldsWfb fields && endT.kind == Kind.EndRecord
+  | .procT kw ps => kw.kind == Kind.Proc && optParamsWfb ps
+  | .funcT kw ps ret ty => kw.kind == Kind.Func && optParamsWfb ps && ret.kind == Kind.Return && ty.kind == Kind.Identifier
+
+/-- `type aName : T` -/
+def typeDeclTree (kw name : Tok) (ty : TyX) : Tree :=
+  mk "type_decl" name.value ⟨kw.rng.s, ty.tree.rng.e⟩ [ty.tree] [] (some name.rng)
+
+def typeDeclWF (kw name colon : Tok) (ty : TyX) : Prop :=
+  kw.kind = Kind.Type ∧ name.kind = Kind.Identifier ∧ colon.kind = Kind.Colon ∧ ty.WF
+
+def typeDeclWfb (kw name colon : Tok) (ty : TyX) : Bool :=
+  kw.kind == Kind.Type && name.kind == Kind.Identifier && colon.kind == Kind.Colon && ty.wfb
+
 /-- the values of a `when`: `lo to hi` over literals, or `v, w, …` over literals and identifiers -/
 inductive WhenVals where
   | range (lo to hi : Tok)
@@ -314,9 +537,9 @@ inductive Stmt (ε : Type) where
   /-- `exit`, `break`, `continue` -/
   | ctl (kw : Tok)
   /-- `var name : T [absolute x]` -/
-  | lvar (kw name colon : Tok) (ty : Ty) (abs : Option (Tok × Tok))
+  | lvar (kw name colon : Tok) (ty : TyX) (abs : Option (Tok × Tok))
   /-- `type aName : T` -/
-  | typeS (kw name colon : Tok) (ty : Ty)
+  | typeS (kw name colon : Tok) (ty : TyX)
   /-- `uses a, b, …` -/
   | usesS (kw first : Tok) (rest : List (Tok × Tok))
   /-- `const c = literal [multiLang]` -/
@@ -534,82 +757,6 @@ end
 
 /-! ## declarations -/
 
-/-- `[const|var|inout] name : T` -/
-structure Param where
-  md    : Option Tok
-  name  : Tok
-  colon : Tok
-  ty    : Ty
-
-def paramModKinds : List Kind := [Kind.Const, Kind.Var, Kind.InOut]
-
-def Param.toks (p : Param) : List Tok := p.md.toList ++ p.name :: p.colon :: p.ty.toks
-
-def Param.tree (p : Param) : Tree :=
-  Gram.mk "param_decl" p.name.value
-    ⟨(match p.md with | some m => m.rng.s | none => p.name.rng.s), p.ty.tree.rng.e⟩
-    [p.ty.tree]
-    (match p.md with | some m => ["modifier=" ++ m.kind.name] | none => [])
-    (some p.name.rng)
-
-def Param.WF (p : Param) : Prop :=
-  (∀ m, p.md = some m → m.kind ∈ paramModKinds) ∧ p.name.kind ∈ identKinds ∧ p.name.kind ∉ paramModKinds ∧
-  p.colon.kind = Kind.Colon ∧ p.ty.WF
-
-def Param.wfb (p : Param) : Bool :=
-  (match p.md with | some m => paramModKinds.contains m.kind | none => true) && identKinds.contains p.name.kind &&
-  !paramModKinds.contains p.name.kind && p.colon.kind == Kind.Colon && p.ty.wfb
-
-/-- `( )` or `( p , p , … )` -/
-inductive ParamList where
-  | empty (lp rp : Tok)
-  | cons (lp : Tok) (first : Param) (rest : List (Tok × Param)) (rp : Tok)
-
-def restToks : List (Tok × Param) → List Tok
-  | [] => []
-  | (c, p) :: rest => c :: (p.toks ++ restToks rest)
-
-def ParamList.toks : ParamList → List Tok
-  | .empty lp rp => [lp, rp]
-  | .cons lp first rest rp => lp :: (first.toks ++ (restToks rest ++ [rp]))
-
-def ParamList.tree : ParamList → Tree
-  | .empty lp rp => Gram.mk "param_decl_list" "param_decls" ⟨lp.rng.s, rp.rng.e⟩ []
-  | .cons lp first rest rp =>
-    Gram.mk "param_decl_list" "param_decls" ⟨lp.rng.s, rp.rng.e⟩ (first.tree :: rest.map (fun cp => cp.2.tree))
-
-def restWF : List (Tok × Param) → Prop
-  | [] => True
-  | (c, p) :: rest => c.kind = Kind.Comma ∧ p.WF ∧ restWF rest
-
-def restWfb : List (Tok × Param) → Bool
-  | [] => true
-  | (c, p) :: rest => c.kind == Kind.Comma && p.wfb && restWfb rest
-
-def ParamList.WF : ParamList → Prop
-  | .empty lp rp => lp.kind = Kind.OBracket ∧ rp.kind = Kind.CBracket
-  | .cons lp first rest rp => lp.kind = Kind.OBracket ∧ first.WF ∧ restWF rest ∧ rp.kind = Kind.CBracket
-
-def ParamList.wfb : ParamList → Bool
-  | .empty lp rp => lp.kind == Kind.OBracket && rp.kind == Kind.CBracket
-  | .cons lp first rest rp => lp.kind == Kind.OBracket && first.wfb && restWfb rest && rp.kind == Kind.CBracket
-
-def optParamsToks : Option ParamList → List Tok
-  | none => []
-  | some ps => ps.toks
-
-def optParamsTree : Option ParamList → List Tree
-  | none => []
-  | some ps => [ps.tree]
-
-def optParamsWF : Option ParamList → Prop
-  | none => True
-  | some ps => ps.WF
-
-def optParamsWfb : Option ParamList → Bool
-  | none => true
-  | some ps => ps.wfb
-
 /-- a method name: `Name` or `Name#Event` -/
 inductive MName where
   | plain (t : Tok)
@@ -692,19 +839,15 @@ inductive Decl (ε : Type) where
   /-- `const c = literal [multiLang]` -/
   | const (kw name eq lit : Tok) (ml : Option Tok)
   /-- `[memory] f : T [private|protected|final|override]* [absolute x]` -/
-  | field (mem : Option Tok) (name colon : Tok) (ty : Ty) (mods : List Tok) (abs : Option (Tok × Tok))
+  | field (mem : Option Tok) (name colon : Tok) (ty : TyX) (mods : List Tok) (abs : Option (Tok × Tok))
   /-- `type aName : T` -/
-  | typeD (kw name colon : Tok) (ty : Ty)
+  | typeD (kw name colon : Tok) (ty : TyX)
   /-- `module aName` -/
   | module (kw name : Tok)
   /-- `uses a, b, …` -/
   | uses (kw first : Tok) (rest : List (Tok × Tok))
   /-- `class aName [(aParent)]` -/
   | cls (kw name : Tok) (parent : Option (Tok × Tok × Tok))
-
-def parentToks : Option (Tok × Tok × Tok) → List Tok
-  | none => []
-  | some (lp, p, rp) => [lp, p, rp]
 
 def bodyToks : Option (List (Stmt ε) × Tok) → List Tok
   | none => []
@@ -774,14 +917,6 @@ def Decl.tree : Decl ε → Tree
 
 /-- no token of the body is a terminator of the method (the body is cut out by `take_until`) -/
 def termFreeB (ks : List Kind) (b : List Tok) : Bool := b.all (fun t => !ks.contains t.kind)
-
-def parentWF : Option (Tok × Tok × Tok) → Prop
-  | none => True
-  | some (lp, p, rp) => lp.kind = Kind.OBracket ∧ p.kind = Kind.Identifier ∧ rp.kind = Kind.CBracket
-
-def parentWfb : Option (Tok × Tok × Tok) → Bool
-  | none => true
-  | some (lp, p, rp) => lp.kind == Kind.OBracket && p.kind == Kind.Identifier && rp.kind == Kind.CBracket
 
 /-- the body of a method that ends with a token of kind `endK` (and may not contain `endK` or `end`);
     a body is there exactly when no modifier says `forward` / `external` -/
